@@ -9,9 +9,11 @@ const readline = require('readline')
 const { ProcGenWrapper } = require('./refrt.js')
 const { evalTree, idsOf, same, describe } = require('./evalref.js')
 
+const CALLS = []
 function makePool() {
   'use strict'
-  const fn = function f(x) { return [this === undefined ? 'plain' : 'method', x] }
+  // (every call is logged: which calls an expression makes, and in which order, is part of its meaning)
+  const fn = function f(x) { CALLS.push(x); return [this === undefined ? 'plain' : 'method', x] }
   const arr = [1, 2]
   const obj = { p: 1, length: 7, q: { p: null } }
   return [undefined, null, true, false, 0, -0, 1, NaN, '', 'x', '10', arr, obj, fn]
@@ -120,6 +122,36 @@ function spreadClasses(e, env, acc) {
   return acc
 }
 
+function containsCall(e) {
+  if (e === null || typeof e !== 'object') return false
+  if (e.k === 'call') return true
+  for (const key of Object.keys(e)) {
+    const v = e[key]
+    if (Array.isArray(v)) { if (v.some(containsCall)) return true } else if (v && typeof v === 'object' && containsCall(v)) return true
+  }
+  return false
+}
+
+// an index expression holding a call, at a position JavaScript evaluates only sometimes (a branch of ?:, the right
+// operand of && || ??): the known finding "the index is computed ahead of the binding" is attributed to exactly this
+function hasLazyIndexCall(e, lazy) {
+  if (e === null || typeof e !== 'object') return false
+  if (e.k === 'idx' && lazy && containsCall(e.i)) return true
+  if (e.k === 'cond') return hasLazyIndexCall(e.c, lazy) || hasLazyIndexCall(e.a, true) || hasLazyIndexCall(e.b, true)
+  if (e.k === 'bin' && (e.o === '&&' || e.o === '||' || e.o === '??')) return hasLazyIndexCall(e.l, lazy) || hasLazyIndexCall(e.r, true)
+  for (const key of Object.keys(e)) {
+    const v = e[key]
+    if (Array.isArray(v)) { if (v.some((x) => hasLazyIndexCall(x, lazy))) return true } else if (v && typeof v === 'object' && hasLazyIndexCall(v, lazy)) return true
+  }
+  return false
+}
+
+function isSubsequence(small, big) {
+  let i = 0
+  for (const x of big) if (i < small.length && same(small[i], x)) i += 1
+  return i === small.length
+}
+
 function runChunk(job) {
   const out = { evals: 0, noref: 0, mismatches: [], oracle: [], errors: [], cases: job.cases.length }
   let G
@@ -156,9 +188,13 @@ function runChunk(job) {
       const env = (n) => data[n]
       let want
       let wantErr = null
+      CALLS.length = 0
       try { want = evalTree(c.tree, env) } catch (e) { wantErr = e && e.constructor ? e.constructor.name : 'Error' }
+      const wantCalls = CALLS.slice()
+      CALLS.length = 0
       let got
       let gotErr = null
+      let eager = false
       try {
         const w = new ProcGenWrapper(procGen)
         // (a deep copy: faulty generated code such as `++D.a` or `Object.assign(D.o, ..)` must not change what
@@ -169,6 +205,10 @@ function runChunk(job) {
         got = root.attrs.r.a
         if (!('a' in root.attrs.r)) gotErr = 'no value delivered'
         else if (!same(mine, data)) gotErr = 'the evaluation changed the data to ' + describe(mine)
+        else if (!wantErr && !same(CALLS.slice(), wantCalls)) {
+          gotErr = 'calls f with ' + describe(CALLS.slice()) + ' where JavaScript calls it with ' + describe(wantCalls)
+          if (isSubsequence(wantCalls, CALLS.slice()) && hasLazyIndexCall(c.tree, false)) eager = true
+        }
       } catch (e) { gotErr = e && e.constructor ? e.constructor.name : 'Error' }
       out.evals += 1
       if (wantErr) {
@@ -183,9 +223,9 @@ function runChunk(job) {
           path: c.path,
           text: c.text,
           env: ids.map((n) => n + '=' + describe(data[n])).join(' '),
-          got: gotErr ? 'throws ' + gotErr : describe(got),
+          got: gotErr ? (/^(calls f|the evaluation|no value)/.test(gotErr) ? '' : 'throws ') + gotErr : describe(got),
           want: wantErr ? 'throws ' + wantErr : describe(want),
-          cls: spreadClasses(c.tree, env),
+          cls: spreadClasses(c.tree, env).concat(eager ? ['eager-index-call'] : []),
         })
       } else if (!ok) {
         reported += 1
